@@ -7,7 +7,7 @@
 //!                                 cmp: 0 = by mtime (`last_modified_node`), 1 = by tag (uid),
 //!                                      2 = always Equal, 3 = directories first then mtime
 //!      <tree> = <n> <node>*n ;  <node> = <namehex> <kind> <mtime> <tag> <nc> <content>*nc [<tree> if kind=1]
-//!      kind: 0 file, 1 dir, 2 symlink, 3 fifo.  Output: `ok <tree>` in the same grammar.
+//!      kind: 0 file, 1 dir, 2 symlink, 3 fifo; names = hex of the raw (unescaped) bytes.  Output: `ok <tree>` in the same grammar.
 //!   G <seed> <k> <odd>            e2e merge: k seeded source dirs with clashing names/types backed up,
 //!                                 `merge_snapshots(last_modified_node)`; prints the k input trees and the result
 //!                                 (`ok check=<0/1> | T <tree> | ... | R <tree>`, tag = hash of the node without
@@ -78,7 +78,7 @@ fn render(get: &dyn Fn(&TreeId) -> Result<Tree>, id: &TreeId, st: Style, out: &m
         let c = n.content.clone().unwrap_or_default();
         out.push_str(&format!(
             " {} {} {} {} {}",
-            if n.name.is_empty() { "-".to_string() } else { hex::encode(n.name.as_bytes()) },
+            if n.name.is_empty() { "-".to_string() } else { hex::encode(n.name().as_bytes()) },
             kind_of(n),
             mtime_of(n),
             node_tag(n, st),
@@ -107,7 +107,7 @@ fn parse_tree(t: &mut Toks, flat: &mut Vec<Tree>) -> TreeId {
     let n = t.u();
     let mut tree = Tree::default();
     for _ in 0..n {
-        let name = String::from_utf8(hex::decode(t.s()).expect("hex")).expect("utf8");
+        let name = hex::decode(t.s()).expect("hex");
         let kind = t.u();
         let mtime = t.i();
         let tag = t.u();
@@ -122,8 +122,7 @@ fn parse_tree(t: &mut Toks, flat: &mut Vec<Tree>) -> TreeId {
         let mut meta = Metadata::default();
         meta.mtime = if mtime == 0 { None } else { Some(rustic_core::jiff::Timestamp::from_nanosecond(i128::from(mtime)).unwrap()) };
         meta.uid = Some(tag as u32);
-        let mut node = Node::new_node(OsStr::new(&name), node_type, meta);
-        assert_eq!(node.name, name, "merge-mode names must not need escaping");
+        let mut node = Node::new_node(OsStr::from_bytes(&name), node_type, meta);
         if kind == 0 {
             node.content = Some(content);
         }
@@ -303,7 +302,7 @@ fn mode_c(seed: u64, variant: u64) -> Result<String> {
         return Ok("fail what=source_dump_failed".into());
     }
     // how many needed blobs does the destination already have?
-    let dsti = dst.to_indexed_ids()?;
+    let dsti = dst.to_indexed()?;
     let mut present = 0;
     for l in &lists {
         for (_, n) in l {
@@ -320,6 +319,7 @@ fn mode_c(seed: u64, variant: u64) -> Result<String> {
         }
     }
     // copy overlapping sets: {s1,s2} then {s2,s3}; the destination index is reloaded in between
+    let dsti = dsti.drop_index().to_indexed_ids()?;
     src.copy(&dsti, [&s1, &s2])?;
     let dsti = dsti.drop_index().to_indexed_ids()?;
     src.copy(&dsti, [&s2, &s3])?;
@@ -364,7 +364,7 @@ fn mode_c(seed: u64, variant: u64) -> Result<String> {
         let r2 = restore_to(dst.drop_index(), &d.id.to_hex(), &rb, RestoreOptions::default());
         match r2 {
             Ok(_) => {
-                let diffs = compare_dirs(&ra, &rb, CmpOpts::default())?;
+                let diffs = compare_dirs(&ra, &rb, CmpOpts { dir_mtime: false, ..CmpOpts::default() })?; // directory mtimes after a restore are C14's business
                 if !diffs.is_empty() {
                     restore_equal = false;
                     detail = flat(&format!("restore_differs:{}", diffs[0]));
@@ -622,10 +622,19 @@ fn mode_r(seed: u64, variant: u64) -> Result<String> {
     let (mut kept_ok, mut ls_ok) = (true, true);
     let (mut repaired, mut marked, mut unmarked_files, mut unsorted) = (0, 0, 0, 0);
     let mut detail = String::from("-");
+    // originals that got a repaired replacement (they stay in the repository when `delete` is off and
+    // are not results of the repair)
+    let replaced: BTreeSet<String> = after
+        .iter()
+        .filter(|s| !before_ids.contains(s.id.to_hex().as_str()))
+        .filter_map(|s| s.original.map(|o| o.to_hex().to_string()))
+        .collect();
     for s in &after {
         let is_new = !before_ids.contains(s.id.to_hex().as_str());
         if is_new {
             repaired += 1;
+        } else if replaced.contains(s.id.to_hex().as_str()) {
+            continue;
         }
         // which original does it stem from?
         let oi = match (is_new, &s.original) {
@@ -687,7 +696,11 @@ fn mode_r(seed: u64, variant: u64) -> Result<String> {
             }
         }
     }
-    let ok = intact_unchanged && kept_ok && ls_ok;
+    // with `delete` the damaged originals are gone, so the whole repository must check clean again
+    let ok = intact_unchanged && kept_ok && ls_ok && (!opts.delete || check);
+    if ok != (intact_unchanged && kept_ok && ls_ok) {
+        detail = "check_reports_errors_after_repair_with_delete".into();
+    }
     Ok(format!(
         "{} intact_unchanged={} damaged=1 tree_pack={} blobs_lost={} kept_ok={} ls_ok={} check={} repaired={} marked={} unmarked_files={} unsorted={} snapshots_after={} detail={}",
         if ok { "ok" } else { "fail what=repair" },
